@@ -96,6 +96,28 @@ def make(fmt, seed, n):
             continue
         yield f"{k}:{name}", iso
     yield from converted(fmt)
+    yield from marks(fmt)
+
+
+def marks(fmt):
+    """branch marks given in every documented form: booleans, 0/1 integers, 0.0/1.0, as a list or as a table column"""
+    import pandas
+    import pygaps
+    pygaps.logger.disabled = True
+    p, l = [0.05, 0.1, 0.2, 0.4, 0.3, 0.15], [0.5, 1.0, 1.5, 2.0, 1.9, 1.6]
+    meta = dict(material='pgv_rt_mat', adsorbate='nitrogen', temperature=77.355, pressure_mode='absolute', pressure_unit='bar', loading_basis='molar',
+                loading_unit='mmol', material_basis='mass', material_unit='g', temperature_unit='K')
+    for kind, conv in (('bool', bool), ('int', int), ('float', float)):
+        for pattern in ([0, 0, 0, 0, 1, 1], [0, 1, 0, 1, 0, 1], [1, 1, 1, 1, 1, 1], [0, 0, 0, 0, 0, 0]):
+            b = [conv(x) for x in pattern]
+            tag = ''.join(str(x) for x in pattern)
+            if len(set(pattern)) == 1:
+                p, l = [0.05, 0.1, 0.15, 0.2, 0.3, 0.4], [0.5, 1.0, 1.5, 1.6, 1.9, 2.0]  # one branch: measured in order
+            else:
+                p, l = [0.05, 0.1, 0.2, 0.4, 0.3, 0.15], [0.5, 1.0, 1.5, 2.0, 1.9, 1.6]
+            yield f"marks:{kind}|list|{tag}", pygaps.PointIsotherm(pressure=p, loading=l, branch=b, **meta)
+            yield f"marks:{kind}|column|{tag}", pygaps.PointIsotherm(isotherm_data=pandas.DataFrame({'pressure': p, 'loading': l, 'branch': b}),
+                                                                      pressure_key='pressure', loading_key='loading', **meta)
 
 
 def converted(fmt):
